@@ -314,8 +314,8 @@ def correspond(ctx):
     mism = []
     cases = [(c, "corpus") for c in corpus_cases()]
     cases += [(c, "exhaustive-1x1") for c in exhaustive_cases()]
-    cases += [(random_case(ctx.rng, True), "random-general") for _ in range(ctx.scale(1500, 20000))]
-    cases += [(random_case(ctx.rng, False), "random-any-activation") for _ in range(ctx.scale(500, 6000))]
+    cases += [(random_case(ctx.rng, True), "random-general") for _ in range(ctx.scale(1500, 60000))]
+    cases += [(random_case(ctx.rng, False), "random-any-activation") for _ in range(ctx.scale(500, 20000))]
     ctx.notes["exhaustive"] = True
     obs, lines = [], []
     for case, kind in cases:
